@@ -174,8 +174,8 @@ CHECKS = {
             'interposed getentropy (per-thread deterministic streams, draw log, injected failure at draw i) and virtual '
             'clock in the sanitized process; outputs compared across streams and runs; send() calls after the failed draw '
             'classified by record type',
-            'For 22 randomised primitives (SM2 keygen/sign x4/encrypt x4, PKCS#8 encryption, SM9 keygen/sign/encrypt/exchange, '
-            'tls_cbc_encrypt, TLS randoms and pre-master secret, X.509 certificate signing, CMS sign and envelop) and for each handshake role of the three protocols: different '
+            'For 25 randomised primitives (SM2 keygen/sign x4/encrypt x4, PKCS#8 encryption, SM9 keygen/sign/encrypt/exchange, '
+            'tls_cbc_encrypt, TLS randoms and pre-master secret, X.509 certificate and request signing, CMS sign / envelop / sign-and-envelop, SM9 key encryption) and for each handshake role of the three protocols: different '
             'streams give different ephemeral values, the same stream and clock give identical bytes, repeated operations '
             'never repeat an ephemeral value, and for EVERY draw index of the clean run - and of runs whose first candidates '
             'are forced out of range so that rejection sampling retries - a failure of that draw must make the '
